@@ -82,8 +82,14 @@ def run(ctx):
         # sibling problems of the same shape (same regime layout, values scaled by 1+2^-20; estimator flag flipped),
         # then fit the configuration itself and compare with the same call made in a fresh interpreter
         truth = tu.fresh_digest(cfg, common.REPO)
-        for sib in (dict(cfg, data_factor=1.0 + 2.0 ** -20), dict(cfg, biased=not cfg["biased"])):
-            call(sib, 1, False)
+        nw_ = cfg["N"] * cfg["W"]
+        for sib in (dict(cfg, data_factor=1.0 + 2.0 ** -20), dict(cfg, biased=not cfg["biased"]),
+                    # a sibling call that FAILS inside the main loop (penalty matrix of the wrong shape: the solver task
+                    # raises IndexError, the loop's error path runs) — later calls must not notice
+                    dict(cfg, lam=np.ones((nw_ - 1, nw_ - 1)))):
+            out_sib = call(sib, 1, False)
+            if isinstance(out_sib, tuple):
+                ctx.count("failing_sibling_calls")
         got = call(cfg, 1, False)
         if isinstance(got, tuple) or tu_digest_fields(got) != truth:
             ctx.violation("impl-violation", "result differs from the same call in a fresh process after sibling fits of the same "
